@@ -547,6 +547,8 @@ def run_play(case, v):
         plans.append((i, t, e))
     begin(case['latency'])
 
+    box = {}
+
     def fire(e):
         d, _ = event_keys(e['keys'], e.get('scale'))
         d['instrument'] = name
@@ -568,7 +570,15 @@ def run_play(case, v):
             b = {k: d[k] for k in ks[1::2]}
             play(a, **b) if a else play(**b)
         elif how == 'event':
-            event(d).play()
+            box['last'] = event(d)
+            box['last'].play()
+        elif how == 'event_again':
+            # same object, same keys, new values
+            obj = box['last']
+            for k, val in d.items():
+                if k not in ('instrument', 'group', 'add_action', 'scale'):
+                    obj[k] = val
+            obj.play()
         else:   # a one-event stream, optionally a rest
             rest = e.get('rest')
             if rest == 'dur':
@@ -1171,6 +1181,31 @@ def play_case(draw):
             e.pop('rest', None)
             e.pop('rest_key', None)
         events.append(e)
+        chain = {'degree', 'note', 'midinote', 'freq', 'octave', 'root',
+                 'mtranspose', 'gtranspose', 'ctranspose', 'harmonic',
+                 'detune', 'db', 'velocity'}
+        # (playing writes the resolved freq/amp back into the event, as in
+        # SuperCollider: only events without keys of those chains are
+        # played twice)
+        if e['how'] == 'event' and scale is None and not (chain & set(keys)) \
+                and draw(st.integers(0, 1)) == 0:
+            # the same event object is played again after its values were
+            # changed (same keys, new numbers): the second bundle carries
+            # the new values
+            import copy
+            e2 = copy.deepcopy(e)
+            e2['how'] = 'event_again'
+            e2['wait'] = draw(dy(0, 2, 8))
+            for k in sorted(e2['keys']):
+                if k in VAL and k not in ('degree', 'note', 'midinote',
+                                          'freq', 'octave', 'root',
+                                          'mtranspose', 'gtranspose',
+                                          'ctranspose', 'harmonic',
+                                          'detune', 'scale'):
+                    e2['keys'][k] = draw(VAL[k])
+                elif k not in VAL:
+                    e2['keys'][k] = draw(FREE_VAL)
+            events.append(e2)
     return {'ctls': ctls, 'clock': clock, 'events': events,
             'latency': draw(st.sampled_from(
                 [0, 0, 0.125, 0.25, 0.5, 0.2, 0.05, 1])),
@@ -1297,6 +1332,30 @@ def stream_case(draw):
         d = u * k / 2
         if grid != 'dyadic':
             d += u / 4        # never on an event boundary (float sums)
+        if grid == 'dyadic' and draw(st.integers(0, 3)) == 0 and not any(
+                n['k'] in ('ppar', 'pchain', 'pmono') for n in walk(kid)):
+            # an event that ends a little (less than the tolerance 0.001)
+            # before the limit counts as reaching it
+            eps = draw(st.sampled_from([F(1, 2048), F(3, 4096)]))
+            leaves = [n for n in walk(kid) if n['k'] == 'pbind'
+                      and n['events']]
+            if leaves:
+                lf = draw(st.sampled_from(leaves))
+                ev = lf['events'][draw(st.integers(0, len(lf['events']) - 1))]
+                if not ref.is_rest_value(ev.get('dur')) and \
+                        not ref.is_rest_value(ev.get('delta')):
+                    if ev.get('delta') is not None:
+                        ev['delta'] = float(F(ev['delta']) - eps)
+                    else:
+                        stretch = F(ev.get('stretch', 1))
+                        ev['dur'] = float(F(ev.get('dur', 1.0))
+                                          - eps / stretch)
+                    its2, tot2 = ref.evaluate(kid)
+                    for i, x in enumerate(its2):
+                        end = its2[i + 1].t if i + 1 < len(its2) else tot2
+                        if (end * 8).denominator != 1 and end > 0:
+                            d = end + eps
+                            break
         return {'k': 'pdur', 'dur': float(d) if d.denominator != 1
                 else int(d), 'kid': kid}
 
